@@ -335,7 +335,9 @@ def mask_forms(P, R, fns, rule='C13.TAB.5'):
             for t in st:
                 rhs = t.ev.get('rhs')
                 if isinstance(rhs, dict) and rhs.get('k') in ('callref', 'var') and not isinstance(const_of(rhs), int):
-                    forms.setdefault(sx(rhs), []).append(t)
+                    import re as _re
+                    # the copies of a local made by folding a helper back in are the same form
+                    forms.setdefault(_re.sub(r'(@[A-Za-z0-9_]+)?#\d+', '', sx(rhs)), []).append(t)
             if sum(len(v) for v in forms.values()) >= 2 and any((t.ev.get('rhs') or {}).get('k') == 'callref' for v in forms.values() for t in v):
                 major = max(forms, key=lambda k: len(forms[k]))
                 for k, v in forms.items():
